@@ -48,6 +48,11 @@ def catalogue():
     w = lambda con, mn=1, mx=1: ('w', con, mn, mx)
     h = lambda mn=1, mx=1: ('h', mn, mx)
     return [
+        # one named group referenced twice with different occurrence ranges (the references share the group's particles)
+        (s([s([e('a')], 0, 1), s([e('a')])]), {'groupref': True}),
+        (s([s([e('a'), e('b', 0, 1)], 0, None), s([e('a'), e('b', 0, 1)])]), {'groupref': True}),
+        (c([c([e('a'), e('b')], 0, 1), c([e('a'), e('b')], 1, 2)]), {'groupref': True}),
+        (s([s([e('a')], 0, 1), e('b'), s([e('a')])]), {'groupref': True}),
         (s([e('a', 0, 1), e('a')]), {}),
         (s([e('a'), e('a', 0, 1)]), {}),
         (c([e('a'), e('a')]), {}),
